@@ -261,6 +261,12 @@ def gen_member_path(rng, t, mem, depth=0):
     suffix = "." + m["name"]
     avail = 0
     off = m["offset"]
+    if m["kind"] == "atomic" and m["type"] == "DWORD" and m["array"]:
+        # a BOOL-array member: the index addresses a BOOL (bit i of the concatenated DWORDs)
+        nbits = 32 * m["array"]
+        i = rng.choice([0, 1, 31, 32 % nbits, nbits - 1, rng.randrange(nbits)])
+        bits = [b for j in range(m["array"]) for b in lg.ref_atomic("DWORD", base[4 * j:4 * j + 4])]
+        return (suffix + "[%d]" % i, "boolmember", None, bits[i], 0, (off + i // 8, i % 8))
     if m["array"]:
         if rng.random() < 0.75:
             i = rng.randrange(m["array"])
